@@ -2,6 +2,9 @@ import Rsp.Model.Ttl
 import Rsp.Spec.Ttl
 import Rsp.Spec.Choose
 import Rsp.Spec.Addr
+import Rsp.Model.Crypt
+import Rsp.Spec.Rfc2865
+import Rsp.Hash.Md5
 namespace Drive
 open Rsp
 
@@ -61,6 +64,15 @@ def parseFind (args : List String) : Option (Nat × Bool × Addr.Src × List Add
     pure (ty, sp = "1", { fam := f, addr := a, port := port }, cs)
   | _ => none
 
+def showOpt (r : Option Bytes) : String :=
+  match r with | some v => "ok " ++ toHex v | none => "rej"
+
+def parseOpt (ts : List String) : Option (Option Bytes) :=
+  match ts with
+  | ["rej"] => some none
+  | ["ok", h] => (ofHex h).map some
+  | _ => none
+
 def model (op : String) (args : List String) : String :=
   match op, args with
   | "decttl", [h] =>
@@ -83,6 +95,17 @@ def model (op : String) (args : List String) : String :=
     | some (ty, sp, src, cs) =>
       match Addr.findConf ty src cs sp with | some i => toString i | none => "none"
     | none => "bad-op"
+  | "pwdrecrypt", [p, os, ns, oa, na, osalt, nsalt] =>
+    match ofHex p, ofHex os, ofHex ns, ofHex oa, ofHex na, ofHex osalt, ofHex nsalt with
+    | some p, some os, some ns, some oa, some na, some osalt, some nsalt =>
+      showOpt (Crypt.pwdrecrypt Hash.md5 p os ns oa na osalt nsalt)
+    | _, _, _, _, _, _, _ => "bad-op"
+  | "msmpprecrypt", [v, os, ns, oa, na] =>
+    match ofHex v, ofHex os, ofHex ns, ofHex oa, ofHex na with
+    | some v, some os, some ns, some oa, some na => showOpt (Crypt.msmpprecrypt Hash.md5 v os ns oa na)
+    | _, _, _, _, _ => "bad-op"
+  | "md5", [m] => match ofHex m with | some m => toHex (Hash.md5 m) | none => "bad-op"
+  | "hmacmd5", [k, m] => match ofHex k, ofHex m with | some k, some m => toHex (Hash.hmacMd5 k m) | _, _ => "bad-op"
   | _, _ => "bad-op"
 
 def spec (op : String) (args impl : List String) : String :=
@@ -116,6 +139,18 @@ def spec (op : String) (args impl : List String) : String :=
       | some ri => if Spec.findConfOk ty src cs sp ri then "ok" else "bad attribution"
       | none => "bad attribution-output-shape"
     | none => "bad-op"
+  | "pwdrecrypt", [p, os, ns, oa, na, osalt, nsalt], impl =>
+    match ofHex p, ofHex os, ofHex ns, ofHex oa, ofHex na, ofHex osalt, ofHex nsalt, parseOpt impl with
+    | some p, some os, some ns, some oa, some na, some osalt, some nsalt, some r =>
+      if Spec.pwdrecryptOk Hash.md5 p os ns oa na osalt nsalt r then "ok" else "bad hidden-attribute-plaintext/len"
+    | _, _, _, _, _, _, _, _ => "bad output-shape"
+  | "msmpprecrypt", [v, os, ns, oa, na], impl =>
+    match ofHex v, ofHex os, ofHex ns, ofHex oa, ofHex na, parseOpt impl with
+    | some v, some os, some ns, some oa, some na, some r =>
+      if Spec.msmpprecryptOk Hash.md5 v os ns oa na r then "ok" else "bad hidden-attribute-plaintext/len"
+    | _, _, _, _, _, _ => "bad output-shape"
+  | "md5", [_], [_] => "ok"
+  | "hmacmd5", [_, _], [_] => "ok"
   | _, _, _ => "bad-op"
 
 end Drive
